@@ -49,8 +49,9 @@ def fmtG (x : Float) : String :=
     let den := if e ≥ 0 then 1 else 2 ^ (-e).toNat
     -- X = floor(log10 v): largest X with 10^X <= num/den
     let ge10 (X : Int) : Bool := if X ≥ 0 then num ≥ den * pow10N X.toNat else num * pow10N (-X).toNat ≥ den
+    -- start from the binary exponent: log10 v ≈ (e + bits m - 1) · 0.30103, then settle exactly
     let X0 : Int := Id.run do
-      let mut X : Int := 0
+      let mut X : Int := ((e + (Int.ofNat (Nat.log2 m))) * 30103) / 100000
       for _ in [0:700] do
         if ge10 (X + 1) then X := X + 1
         else if !ge10 X then X := X - 1
